@@ -153,7 +153,11 @@ def _read_chunked(data: bytes, pos: int, msg: Msg):
     while True:
         line, pos2 = _read_line(data, pos, "chunk-size")
         size_part, sep, ext = line.partition(b";")
-        size_part = size_part.rstrip(b" \t") if sep else size_part
+        if not sep and size_part != size_part.rstrip(b" \t"):
+            # "e \r\n": whitespace after the size without an extension is not in the grammar (BWS is only allowed
+            # before ';'), but no reader can take it for a different size; counted, not refused
+            msg.invalid_octets += 1
+        size_part = size_part.rstrip(b" \t")
         if not HEX_RE.match(size_part):
             raise Ambiguous(f"invalid chunk size {line[:30]!r}", "chunk")
         if sep:
